@@ -695,7 +695,8 @@ func c10StreamReader(p *Prog, r *Report) {
 func c10Gating(p *Prog, r *Report) {
 	// server
 	if fi := p.Func(kSetFile); fi != nil {
-		f := p.FlatOf(fi)
+		// (the closing response may be sent by a helper of the package: in.finish())
+		f := p.FlatInlExcept(fi, kStoreSet)
 		sets := f.CallSites(kStoreSet)
 		var closes []int
 		for _, n := range f.Nodes {
